@@ -212,9 +212,17 @@ def plain_text(v):
     raise H.HarnessError(v)
 
 
-def to_etree(desc):
-    """description -> xml.etree Element in valid OFX order (built by the harness)."""
+def to_etree(desc, parser_like=True):
+    """description -> xml.etree Element in valid OFX order (built by the harness).
+
+    parser_like=True gives element text the way the library's parser delivers it: whitespace-trimmed and *still
+    entity-escaped* (the type converters do the decoding).  parser_like=False gives the decoded text, for trees that
+    are serialised with ElementTree (which escapes)."""
     import xml.etree.ElementTree as ET
+
+    def text_of(v):
+        t = plain_text(v)
+        return R.escape_min(t) if parser_like else t
 
     cls = M.universe()[desc["cls"]]
     root = ET.Element(desc["cls"])
@@ -223,13 +231,13 @@ def to_etree(desc):
         if what == "kw":
             v = desc["kw"][key]
             if M.is_scalar(v):
-                ET.SubElement(root, M.tag_of(cls, key)).text = plain_text(v)
+                ET.SubElement(root, M.tag_of(cls, key)).text = text_of(v)
             else:
-                root.append(to_etree(v))
+                root.append(to_etree(v, parser_like))
         else:
             m = desc["list"][key]
             if M.is_scalar(m):
-                ET.SubElement(root, le[0].upper()).text = plain_text(m)
+                ET.SubElement(root, le[0].upper()).text = text_of(m)
             else:
-                root.append(to_etree(m))
+                root.append(to_etree(m, parser_like))
     return root
